@@ -105,7 +105,21 @@ func (g *inputGen) session(sess, nItems int, v1ok bool) ([]byte, []uint64) {
 		case k == 6 && g.keyRaw != nil && g.r.Chance(1, 2):
 			// a complete frame of the other protocol version on a link that demands signatures, with the v2 marker byte inside
 			// it (sequence number 253): rejected as one unit, the authenticated frames behind it are delivered
-			out = append(out, uidFrame(uid, 0xFD, 9, true, nil, 0)...)
+			if g.r.Chance(1, 2) {
+				out = append(out, uidFrame(uid, 0xFD, 9, true, nil, 0)...)
+			} else {
+				// ... or a v1 frame with the largest payloads there are (254 / 255 bytes), marker bytes near its end
+				p := make([]byte, 254+g.r.Intn(2))
+				for x := range p {
+					p[x] = byte(1 + x%200)
+				}
+				for x := len(p) - 40; x < len(p); x += 9 {
+					p[x] = 0xFD
+				}
+				big := &ref.FrameSpec{Version: 1, Seq: byte(i), Sys: 9, Comp: 1, MsgID: 131, Payload: p}
+				ref.Seal(big, 0, nil)
+				out = append(out, ref.Serialize(big)...)
+			}
 		case k == 4 && g.keyRaw == nil: // an ArduPilot heartbeat from a new sender: triggers stream requests and their event
 			g.hbs++
 			out = append(out, hbFrame(byte(1+g.hbs%250), byte(1+g.hbs/250%250), 3, 0)...)
